@@ -118,6 +118,15 @@ class Flow:
             return None
         return _clone(e) if not isinstance(e, (ast.Call, ast.Subscript)) or not self.is_array_expr(e) else None
 
+    def row_of(self, seq, sym):
+        """iterating an array-valued attribute / a sub-table of one (`self._tab[i]`) yields its rows: element `sym` is `seq[sym]`"""
+        base = seq
+        while isinstance(base, ast.Subscript):
+            base = base.value
+        if isinstance(base, ast.Attribute) and isinstance(base.value, ast.Name) and base.value.id == "self":
+            return ast.Subscript(value=_clone(seq), slice=_name(sym), ctx=ast.Load())
+        return None
+
     def push_subscripts(self, e):
         flow = self
 
@@ -246,6 +255,8 @@ class Flow:
             enum = True
             it = it.args[0]
         seqs = None
+        if isinstance(it, ast.Call) and isinstance(it.func, ast.Name) and it.func.id in ("list", "tuple") and len(it.args) == 1 and not it.keywords:
+            it = it.args[0]            # list(zip(...)) iterates like zip(...)
         if isinstance(it, ast.Call) and isinstance(it.func, ast.Name) and it.func.id == "zip" and not it.keywords:
             seqs = list(it.args)
         is_range = isinstance(it, ast.Call) and isinstance(it.func, ast.Name) and it.func.id == "range" and not it.keywords \
@@ -267,7 +278,7 @@ class Flow:
             sym = self.new_sym("J")
             over = seqs if seqs is not None else [it]
             elems = [self.elem(s_, _name(sym)) if (self.is_array_expr(s_) or (isinstance(s_, ast.Call) and isinstance(s_.func, ast.Name)
-                                                                               and s_.func.id == "range")) else None for s_ in over]
+                                                                               and s_.func.id == "range")) else self.row_of(s_, sym) for s_ in over]
             frame = Frame(sym, "elems", ast.Constant(value=0), None, over=over, node=st)
             self.frames.append(frame)
             if enum:
@@ -613,16 +624,247 @@ def _strip_broadcast(e):
     return e, pos
 
 
+# ---- axis-labelled element-wise model of a table built by whole-array expressions ------------------------------------------
+TH, RI, R0S, CSYM = Symbol("theta", real=True), Symbol("r_i", positive=True), Symbol("R0", positive=True), Symbol("c", integer=True)
+IOTA = Function("iota")
+
+
+class AxVal:
+    """generic element of an array + the meaning of each of its axes ('theta' nodes, 'shift' entries, local 'r', replicated
+    axes 'rep:<extent>', None for unit axes); scalars have no axes"""
+
+    def __init__(self, expr, axes=()):
+        self.expr, self.axes = expr, tuple(axes)
+
+
+class AxEval:
+    def __init__(self, chk, env=None):
+        self.chk = chk
+        self.env = dict(env or {})       # local name -> AxVal | ('func', name)
+        self.alias = {}                  # parameter -> source text of the caller's argument (arguments the model has no value for)
+        self.depth = 0
+
+    def canon(self, e):
+        """source text with a parameter that merely forwards a caller's name written as that name"""
+        if not self.alias:
+            return src(e)
+        e2 = copy.deepcopy(e)
+        for n in ast.walk(e2):
+            if isinstance(n, ast.Name) and n.id in self.alias and n.id not in self.env:
+                n.id = self.alias[n.id]
+        return src(e2)
+
+    def bcast(self, a, b):
+        n = max(len(a.axes), len(b.axes))
+        xa, xb = (None,) * (n - len(a.axes)) + a.axes, (None,) * (n - len(b.axes)) + b.axes
+        out = []
+        for p_, q_ in zip(xa, xb):
+            if p_ is not None and q_ is not None and p_ != q_:
+                raise Undecided(f"axes `{p_}` and `{q_}` are combined element-wise")
+            out.append(p_ if p_ is not None else q_)
+        return tuple(out)
+
+    def ev(self, e):
+        from ..symx import Wrap, PI
+        s = self.canon(e)
+        if s in ("eta_grid[1]",):
+            return AxVal(TH, ("theta",))
+        if s == "self._shifts":
+            return AxVal(SHIFT(CSYM), ("shift",))
+        if s in ("self._dz",):
+            return AxVal(DZ)
+        if s in ("self._inv_dz",):
+            return AxVal(1 / DZ)
+        if s in ("constants.R0", "R0") and s not in self.env:
+            return AxVal(R0S)
+        if s in ("constants.iota",) or (s == "iota" and s not in self.env):
+            return ("func", "iota")
+        if s in ("np.pi", "math.pi", "pi") and s not in self.env:
+            return AxVal(PI)
+        if isinstance(e, ast.Name):
+            if e.id in self.env:
+                return self.env[e.id]
+            raise Undecided(f"unknown name `{e.id}`")
+        if isinstance(e, ast.Constant):
+            if isinstance(e.value, (int, float)) and not isinstance(e.value, bool):
+                return AxVal(Integer(e.value) if isinstance(e.value, int) else sp.Rational(repr(e.value)))
+            raise Undecided(f"constant {e.value!r}")
+        if isinstance(e, ast.Subscript):
+            if self.canon(e.value) == "eta_grid[0]" and isinstance(e.slice, ast.Slice):
+                return AxVal(RI, ("r",))
+            base = self.ev(e.value)
+            if not isinstance(base, AxVal):
+                raise Undecided(f"subscript of `{src(e.value)[:40]}`")
+            items = list(e.slice.elts) if isinstance(e.slice, ast.Tuple) else [e.slice]
+            axes, k = [], 0
+            for it in items:
+                if isinstance(it, ast.Constant) and it.value is None:
+                    axes.append(None)
+                elif isinstance(it, ast.Slice) and it.lower is None and it.upper is None and it.step is None:
+                    if k >= len(base.axes):
+                        raise Undecided(f"too many axes in `{s[:40]}`")
+                    axes.append(base.axes[k])
+                    k += 1
+                else:
+                    raise Undecided(f"subscript `{s[:50]}`")
+            axes += list(base.axes[k:])
+            return AxVal(base.expr, axes)
+        if isinstance(e, ast.UnaryOp) and isinstance(e.op, (ast.USub, ast.UAdd)):
+            v = self.ev(e.operand)
+            return AxVal(-v.expr if isinstance(e.op, ast.USub) else v.expr, v.axes)
+        if isinstance(e, ast.BinOp):
+            a, b = self.ev(e.left), self.ev(e.right)
+            if not (isinstance(a, AxVal) and isinstance(b, AxVal)):
+                raise Undecided(f"operands of `{s[:40]}`")
+            axes = self.bcast(a, b)
+            op = e.op
+            if isinstance(op, ast.Add):
+                return AxVal(a.expr + b.expr, axes)
+            if isinstance(op, ast.Sub):
+                return AxVal(a.expr - b.expr, axes)
+            if isinstance(op, ast.Mult):
+                return AxVal(a.expr * b.expr, axes)
+            if isinstance(op, ast.Div):
+                return AxVal(a.expr / b.expr, axes)
+            if isinstance(op, ast.Mod) and sp.simplify(b.expr - 2 * PI) == 0:
+                return AxVal(Wrap(a.expr), axes)
+            raise Undecided(f"operator in `{s[:40]}`")
+        if isinstance(e, ast.Call):
+            f = e.func
+            fs = self.canon(f)
+            if fs in ("np.mod", "np.remainder") and len(e.args) == 2:
+                a, b = self.ev(e.args[0]), self.ev(e.args[1])
+                if isinstance(a, AxVal) and isinstance(b, AxVal) and sp.simplify(b.expr - 2 * PI) == 0:
+                    return AxVal(Wrap(a.expr), a.axes)
+                raise Undecided(f"modulus of `{s[:40]}`")
+            if fs in ("np.broadcast_to",) and len(e.args) == 2 and isinstance(e.args[1], (ast.List, ast.Tuple)):
+                a = self.ev(e.args[0])
+                shp = e.args[1].elts
+                if not isinstance(a, AxVal) or len(shp) < len(a.axes):
+                    raise Undecided("np.broadcast_to")
+                lead = [f"rep:{src(x)}" for x in shp[:len(shp) - len(a.axes)]]
+                return AxVal(a.expr, tuple(lead) + a.axes)
+            if fs in ("np.asarray", "np.array", "np.ascontiguousarray", "np.copy") and len(e.args) >= 1:
+                return self.ev(e.args[0])
+            callee = self.ev(f) if isinstance(f, (ast.Name, ast.Attribute)) and (fs in ("constants.iota", "iota") or (isinstance(f, ast.Name) and isinstance(self.env.get(f.id), tuple))) else None
+            if isinstance(callee, tuple) and callee[0] == "func" and callee[1] == "iota":
+                args = [self.ev(a) for a in e.args]
+                if any(not isinstance(a, AxVal) for a in args) or e.keywords:
+                    raise Undecided("argument of iota")
+                return AxVal(IOTA(*[a.expr for a in args]), args[0].axes if args else ())
+            target = None
+            if isinstance(f, ast.Name) and self.chk.mod(U.ADV).has(f.id):
+                target, params = self.chk.mod(U.ADV).func(f.id), None
+                params = [a.arg for a in target.args.args]
+            elif isinstance(f, ast.Attribute) and isinstance(f.value, ast.Name) and f.value.id == "self" and self.chk.mod(U.ADV).has(f"{CLS}.{f.attr}"):
+                target = self.chk.mod(U.ADV).func(f"{CLS}.{f.attr}")
+                params = [a.arg for a in target.args.args if a.arg != "self"]
+            if target is not None and self.depth < 3:
+                from .. import agree
+                b = agree.bind_call(e, params)
+                if b is None or set(b) != set(params):
+                    raise Undecided(f"arguments of `{fs}`")
+                sub = AxEval(self.chk)
+                for p_, v in b.items():
+                    try:
+                        sub.env[p_] = self.ev(v)
+                    except Undecided:
+                        if not isinstance(v, (ast.Name, ast.Attribute)):
+                            raise
+                        sub.alias[p_] = self.canon(v)
+                sub.depth = self.depth + 1
+                return sub.run_body(target)
+            raise Undecided(f"call `{s[:50]}`")
+        raise Undecided(f"expression `{s[:50]}`")
+
+    def run_body(self, fn):
+        """value returned by a function whose body is straight-line assignments ending in a return"""
+        body = [st for st in fn.body if not (isinstance(st, ast.Expr) and isinstance(st.value, ast.Constant))]
+        for st in body:
+            if isinstance(st, ast.Assign) and len(st.targets) == 1 and isinstance(st.targets[0], ast.Name):
+                try:
+                    self.env[st.targets[0].id] = self.ev(st.value)
+                except Undecided:
+                    self.env.pop(st.targets[0].id, None)
+            elif isinstance(st, ast.Return) and st.value is not None and st is body[-1]:
+                v = self.ev(st.value)
+                if not isinstance(v, AxVal):
+                    raise Undecided("returned value")
+                return v
+            elif isinstance(st, (ast.Assert, ast.Assign)):
+                continue
+            else:
+                raise Undecided(f"`{src(st).splitlines()[0][:50]}` in `{fn.name}`")
+        raise Undecided(f"`{fn.name}` returns nothing")
+
+
+def table_value_model(chk):
+    """the table self._thetaVals as built by whole-array expressions in the constructor: {'value': AxVal, 'assign': node, derived
+    axis facts} or {'why': reason}"""
+    init = chk.func(U.ADV, f"{CLS}.__init__")
+    asg = [st for st in init.body if isinstance(st, ast.Assign) and len(st.targets) == 1 and src(st.targets[0]) == "self._thetaVals"]
+    stores = [n for n in ast.walk(init) if isinstance(n, (ast.Assign, ast.AugAssign)) and
+              src(n.targets[0] if isinstance(n, ast.Assign) else n.target).startswith("self._thetaVals")]
+    if len(asg) != 1 or len(stores) != 1:
+        return {"why": f"{len(stores)} assignments to self._thetaVals in the constructor (one whole-table expression expected)"}
+    if any(isinstance(c, ast.Call) and isinstance(c.func, ast.Attribute) and src(c.func.value) == "self" and
+           any(src(a).startswith("self._thetaVals") for a in c.args) for c in ast.walk(init)):
+        return {"why": "the table is filled through a method that receives it as an argument"}
+    ev = AxEval(chk)
+    try:
+        for st in init.body:
+            if st is asg[0]:
+                break
+            if isinstance(st, ast.Assign) and len(st.targets) == 1 and isinstance(st.targets[0], ast.Name):
+                try:
+                    ev.env[st.targets[0].id] = ev.ev(st.value)
+                except Undecided:
+                    pass
+        val = ev.ev(asg[0].value)
+    except Undecided as e:
+        return {"why": f"`{src(asg[0])[:60]}`: {e}", "assign": asg[0]}
+    if not isinstance(val, AxVal) or not val.axes:
+        return {"why": f"`{src(asg[0])[:60]}` is not an array expression", "assign": asg[0]}
+    out = {"value": val, "assign": asg[0], "fn": init, "q": f"{CLS}.__init__"}
+    per = list(val.axes[1:])
+    out["radial"] = val.axes[0]
+    is_z = lambda a: isinstance(a, str) and a.startswith("rep:") and a[4:] in ("self._nz", "eta_grid[2].size", "len(eta_grid[2])")
+    if per.count("shift") == 1 and per.count("theta") == 1 and per[-1] == "theta" and all(a in ("shift", "theta") or is_z(a) for a in per):
+        out["rank"] = len(per)
+        out["col_axis"] = per.index("shift")
+        zs = [k for k, a in enumerate(per) if is_z(a)]
+        out["row_axis"] = zs[0] if len(zs) == 1 else None
+        out["row_index"] = out["row_frame"] = None
+        if len(zs) > 1:
+            out.pop("rank")
+    return out
+
+
 def table_model(chk):
     """how _getThetaVals fills the table handed in: {'rank', 'col_axis', 'row_axis', 'zdiff'(column symbol -> sympy), ...}
     or {'why': reason}"""
     cache = chk.__dict__.setdefault("_c13_facts", {})
     if "table" in cache:
         return cache["table"]
+    mod = chk.mod(U.ADV)
+    if not mod.has(f"{CLS}._getThetaVals"):
+        out = {"fn": chk.func(U.ADV, f"{CLS}.__init__"), "q": f"{CLS}.__init__", "why": "no method _getThetaVals"}
+        cache["table"] = out
+        out.update(table_value_model(chk))
+        return out
+    out = _table_fill_model(chk)
+    cache["table"] = out
+    if "zdiff" not in out:
+        vm = table_value_model(chk)
+        if "value" in vm:
+            out.update(vm)
+    return out
+
+
+def _table_fill_model(chk):
     fn = chk.func(U.ADV, f"{CLS}._getThetaVals")
     fl = Flow(fn, arrays={"self._shifts"}).run()
     out = {"fn": fn, "flow": fl}
-    cache["table"] = out
     stores = [e for e in fl.events if e.kind == "store" and src(e.target).split("[")[0] == "P_thetaVals"]
     if fl.opaque:
         out["why"] = "statement outside the model: " + fl.opaque[0]
@@ -699,6 +941,50 @@ def table_model(chk):
     return out
 
 
+def theta_table_by_value(chk, tm):
+    """the table is one whole-array expression: its generic element, with the meaning of every axis, is compared with
+    fieldline(theta node, dz * shift_c, iota, r_i, R0) = (theta + iota(r_i) dz shift_c / R0) mod 2 pi"""
+    from ..symx import Wrap
+    val, node, q = tm["value"], tm["assign"], tm["q"]
+    label = "table[i, (row,) c, :] = (theta + iota(r_i) * dz * shift_c / R0) mod 2 pi"
+    spec = Wrap(TH + IOTA(RI) * DZ * SHIFT(CSYM) / R0S)
+    e = val.expr
+    bad, unknown = [], []
+    same = isinstance(e, sp.Basic) and e.func == Wrap and alg_equal(e.args[0], spec.args[0])
+    if not same:
+        iotas = [a for a in (e.atoms(sp.Function) if isinstance(e, sp.Basic) else ()) if a.func == IOTA]
+        off = [a for a in iotas if RI not in a.free_symbols]
+        inner = e.args[0] if isinstance(e, sp.Basic) and e.func == Wrap else e
+        if off and alg_equal(inner.subs(off[0], IOTA(RI)), spec.args[0]):
+            at = ", ".join(str(x) for x in off[0].args) or "its default argument"
+            bad.append(f"the pitch of the field line is iota evaluated at {at} (`{str(off[0])}`), not at the radius r_i of the table row: the "
+                       "angle iota(r_i) dz shift_c / R0 followed along the field line ignores the radial dependence of the rotational "
+                       "transform, so for a sheared field the stencil points of every radius but those with iota(r) = iota"
+                       f"({', '.join(str(x) for x in off[0].args)}) lie off the field line (b_z still uses iota(r))")
+        elif isinstance(e, sp.Basic) and e.func != Wrap and alg_equal(e, spec.args[0]):
+            bad.append("the angle theta + iota(r_i) dz shift_c / R0 is not reduced modulo 2 pi: the theta-spline is evaluated outside its periodic domain")
+        elif isinstance(e, sp.Basic) and not any(str(x).startswith(("U_", "P_")) for x in e.free_symbols):
+            bad.append(f"the table entry for theta node theta, stencil column c and radius r_i is {e}, expected {spec}")
+        else:
+            unknown.append(f"table entry {e} not comparable with {spec}")
+    if tm["radial"] != "r" and not bad:
+        if RI in (e.free_symbols if isinstance(e, sp.Basic) else set()):
+            unknown.append(f"leading axis of the table is `{tm['radial']}`, not the local radii")
+        elif same:
+            unknown.append("the table does not depend on the radius although the specification does")
+    if "rank" not in tm:
+        unknown.append(f"axes {list(val.axes)} of the table not recognised as [r, (z,) shift, theta]")
+    ok = False if bad else (None if unknown else True)
+    chk.ob("F7-theta-table", node, label, ok,
+           f"generic element of the table = field-line angle for the row's radius and the column's shift; axes {list(val.axes)}" if ok else
+           "; ".join(bad + unknown), file=U.ADV, func=q, facts={"value": str(e), "axes": [str(a) for a in val.axes]})
+    chk.ob("F7-theta-table", node, "self._thetaVals: one whole-array expression", True if "rank" in tm else None,
+           f"the table is built in one expression with axes {list(val.axes)}: column axis {tm.get('col_axis')} per radius"
+           + (", replicated along z" if tm.get("row_axis") is not None else "") if "rank" in tm else
+           f"axes {list(val.axes)} not recognised", file=U.ADV, func=q)
+    return tm
+
+
 def theta_table(chk):
     """_getThetaVals: column c of the table holds the field-line angle for shift c, for every row the table has"""
     from ..core import same_expr
@@ -708,8 +994,11 @@ def theta_table(chk):
     q = f"{CLS}._getThetaVals"
     label = "table[(row,) c, :] = fieldline(theta nodes, dz * shift_c, iota, r, R0)"
     node = tm["store"].node if "store" in tm else fn
+    if "zdiff" not in tm and "value" in tm:
+        return theta_table_by_value(chk, tm)
     if "zdiff" not in tm:
-        chk.ob("F7-theta-table", node, label, None, "table fill not followed: " + tm.get("why", "?"), file=U.ADV, func=q)
+        chk.ob("F7-theta-table", tm.get("assign", node), label, None, "table fill not followed: " + tm.get("why", "?"), file=U.ADV,
+               func=tm.get("q", q))
         return tm
     c = tm["col_sym"]
     diffs, unknown = [], []
@@ -823,15 +1112,63 @@ class Contribution:
         self.problems = []
 
 
+def _flat_view(e):
+    """`X.reshape(n)` / `X.reshape((n,))` / `X.reshape(-1)`-free forms -> (X, n) else None"""
+    if isinstance(e, ast.Call) and isinstance(e.func, ast.Attribute) and e.func.attr == "reshape" and len(e.args) == 1 and not e.keywords:
+        a = e.args[0]
+        if isinstance(a, (ast.Tuple, ast.List)) and len(a.elts) == 1:
+            a = a.elts[0]
+        if not isinstance(a, (ast.Tuple, ast.List)):
+            return e.func.value, a
+    return None
+
+
+def _over_shifts(e):
+    return any(isinstance(n, ast.Attribute) and src(n) == "self._shifts" for n in ast.walk(e)) and \
+        not any(isinstance(n, ast.Subscript) and src(n.value) == "self._shifts" and not isinstance(n.slice, (ast.Slice, ast.Tuple)) for n in ast.walk(e))
+
+
+def _entry(e, jsym):
+    """stencil entry `jsym` of an expression that is element-wise in self._shifts / self._coeffs (broadcast along the rows of a 2-D work
+    array): the arrays are subscripted, the work array keeps its name (its row `jsym` is meant); None outside this fragment"""
+    if isinstance(e, ast.Constant):
+        return e
+    if isinstance(e, ast.Attribute):
+        if src(e) in ("self._shifts", "self._coeffs"):
+            return ast.Subscript(value=_clone(e), slice=_name(jsym), ctx=ast.Load())
+        return _clone(e)
+    if isinstance(e, ast.Name):
+        return _clone(e)
+    if isinstance(e, ast.Subscript):
+        inner, pos = _strip_broadcast(e)
+        if inner is not e and src(inner) in ("self._shifts", "self._coeffs") and pos in (0, None):
+            return _entry(inner, jsym)
+        if isinstance(inner, ast.Name) and inner is not e:
+            return _clone(inner)
+        return None
+    if isinstance(e, ast.BinOp):
+        a, b = _entry(e.left, jsym), _entry(e.right, jsym)
+        return None if a is None or b is None else ast.BinOp(left=a, op=e.op, right=b)
+    if isinstance(e, ast.UnaryOp):
+        a = _entry(e.operand, jsym)
+        return None if a is None else ast.UnaryOp(op=e.op, operand=a)
+    return None
+
+
 def scatter_model(chk):
     cache = chk.__dict__.setdefault("_c13_facts", {})
     if "scatter" in cache:
         return cache["scatter"]
     fn = chk.func(U.ADV, f"{CLS}.parallel_gradient")
-    fl = Flow(fn, arrays={"self._shifts", "self._coeffs"}).run()
+    from .C05 import structured
+    # `if c: continue` at the head of a row loop is read as `if c: pass else: <rest of the body>`
+    fn_s, unstructured = structured(fn)
+    fl = Flow(fn_s, arrays={"self._shifts", "self._coeffs"}).run()
     m = {"fn": fn, "flow": fl, "contribs": [], "clears": [], "scales": [], "other_stores": [], "why": None}
     cache["scatter"] = m
-    if fl.opaque:
+    if unstructured:
+        m["why"] = unstructured
+    elif fl.opaque:
         m["why"] = "statement outside the model: " + fl.opaque[0]
     interp = {}      # id(frame) -> (event, resolved source row expr)
     evals = {}       # buffer symbol -> (event, point expr) of the latest eval_vector in the same stencil frame
@@ -844,6 +1181,23 @@ def scatter_model(chk):
             elif f == "self._thetaSpline.eval_vector" and len(c.args) >= 2 and isinstance(c.args[1], ast.Name):
                 extra = c.args[2:] + [k.value for k in c.keywords]
                 evals[c.args[1].id] = (ev, c.args[0], extra)
+            elif f == "self._thetaSpline.eval_vector" and len(c.args) >= 2 and _flat_view(c.args[1]) is not None and _flat_view(c.args[0]) is not None \
+                    and isinstance(_flat_view(c.args[1])[0], ast.Name) and _flat_view(c.args[1])[0].id in fl.buffers:
+                # all stencil entries at once: points X.reshape(n*m) -> values BUF.reshape(n*m), BUF allocated [n, m]: row J of the buffer
+                # holds the values at row J of X when both are flattened with the same two extents
+                (buf, nb), (pts, npnt) = _flat_view(c.args[1]), _flat_view(c.args[0])
+                shp = fl.buffers[buf.id].args[0] if fl.buffers[buf.id].args else None
+                try:
+                    same = isinstance(shp, (ast.List, ast.Tuple)) and len(shp.elts) == 2 and \
+                        sp.simplify(to_sym(fl.resolve(shp.elts[0])) * to_sym(fl.resolve(shp.elts[1])) - to_sym(nb)) == 0 and \
+                        sp.simplify(to_sym(nb) - to_sym(npnt)) == 0 and sp.simplify(to_sym(fl.resolve(shp.elts[0])) - NPTS) == 0
+                except Undecided:
+                    same = False
+                if same:
+                    extra = c.args[2:] + [k.value for k in c.keywords]
+                    evals[buf.id] = (ev, pts, extra, "rows")
+                else:
+                    m["why"] = m["why"] or f"call `{src(ev.node)[:60]}`: flattened views of different extents: not modelled"
             elif f.startswith("self._thetaSpline.") or f.startswith("self._interpolator."):
                 m["why"] = m["why"] or f"call `{src(ev.node)[:60]}` not modelled"
             elif f == "P_der.fill" and len(c.args) == 1 and not c.keywords and not ev.frames:
@@ -874,6 +1228,34 @@ def scatter_model(chk):
                 m["clears"].append((ev, val))
             elif not in_loop and whole and isinstance(op, (ast.Mult, ast.Div)):
                 m["scales"].append((ev, val, op))
+            elif in_loop and isinstance(op, (ast.Add, ast.Sub)) and items and all(full(i) for i in items[1:]) and _over_shifts(items[0]):
+                # all stencil entries at once: der[(k - shifts) % nz, :] += coeffs[:, None] * BUF  ==  for J: der[(k - shifts[J]) % nz, :] += coeffs[J] * BUF[J]
+                c = Contribution(ev)
+                c.op = op
+                fl.nsym += 1
+                jsym = f"J{fl.nsym}"
+                c.target = _entry(items[0], jsym)
+                c.value = _entry(val, jsym)
+                c.vectorised = True
+                rows = [f for f in ev.frames if f.kind == "range"]
+                bufs = sorted({n.id for n in ast.walk(val) if isinstance(n, ast.Name) and n.id.startswith("BUF_")})
+                if len(rows) != 1 or len(ev.frames) != 1 or c.target is None or c.value is None:
+                    c.problems.append("vectorised accumulation over the stencil: the statement is not element-wise in the shifts / coefficients")
+                elif len(bufs) != 1 or bufs[0] not in evals or len(evals[bufs[0]]) < 4 or not evals[bufs[0]][0].frames or evals[bufs[0]][0].frames[-1] is not rows[0]:
+                    c.problems.append("the accumulated value is not (weights) x (buffer filled by one eval_vector call for all stencil entries in the same row iteration)")
+                else:
+                    c.row = rows[0]
+                    c.sten = Frame(jsym, "elems", ast.Constant(value=0), None, over=[ast.parse("self._shifts", mode="eval").body,
+                                                                                     ast.parse("self._coeffs", mode="eval").body], node=ev.node)
+                    it = interp.get(id(c.row))
+                    if it is None:
+                        c.problems.append("no compute_interpolant call in the row loop before the accumulation")
+                    else:
+                        c.src_row = it[1]
+                    c.buf = bufs[0]
+                    c.point = ast.Subscript(value=_clone(evals[bufs[0]][1]), slice=_name(jsym), ctx=ast.Load())
+                    c.eval_extra = evals[bufs[0]][2]
+                m["contribs"].append(c)
             elif in_loop and isinstance(op, (ast.Add, ast.Sub)) and items and all(full(i) for i in items[1:]):
                 c = Contribution(ev)
                 c.op = op
@@ -905,6 +1287,52 @@ def scatter_model(chk):
     return m
 
 
+def _mentions(e, name):
+    return any(isinstance(n, ast.Name) and n.id == name for n in ast.walk(e))
+
+
+def classify_skip(test, polarity):
+    """a contribution guarded by `test` (executed when it has truth value `polarity`) is skipped for some source rows.  Interpolation
+    and evaluation are linear and injective, so skipping is harmless exactly when the skipped row is identically zero.
+    -> ('zero', text) the skip condition holds for zero rows only / ('nonzero', text, kind) it can hold for a non-zero row /
+    (None, text) not understood"""
+    e = test
+    neg = not polarity            # rows are skipped when `test` is true (polarity False) or false (polarity True)
+    skip_if_true = neg
+    while True:
+        if isinstance(e, ast.UnaryOp) and isinstance(e.op, (ast.Not, ast.Invert)):
+            e, skip_if_true = e.operand, not skip_if_true
+        elif isinstance(e, ast.Subscript) and isinstance(e.value, (ast.Compare, ast.Call, ast.UnaryOp, ast.BoolOp)):
+            e = e.value          # element of a per-row flag array computed before the loop
+        else:
+            break
+    text = ("" if skip_if_true else "not ") + f"({src(e).replace('P_', '')})"
+    if not _mentions(e, "P_phi_r"):
+        return None, text
+
+    def call_name(c):
+        return c.func.attr if isinstance(c.func, ast.Attribute) else c.func.id if isinstance(c.func, ast.Name) else ""
+    # any()/count_nonzero of the row: true iff the row is not identically zero
+    if isinstance(e, ast.Call) and call_name(e) in ("any", "count_nonzero"):
+        return ("zero", text) if not skip_if_true else ("nonzero", text, "rows that are NOT identically zero")
+    if isinstance(e, ast.Call) and call_name(e) == "all" and isinstance((e.args[0] if e.args else e.func.value), ast.Compare):
+        c = e.args[0] if e.args else e.func.value
+        if len(c.ops) == 1 and isinstance(c.ops[0], ast.Eq) and isinstance(c.comparators[0], ast.Constant) and c.comparators[0].value == 0:
+            return ("zero", text) if skip_if_true else ("nonzero", text, "rows that are not identically zero")
+    if isinstance(e, ast.Compare) and len(e.ops) == 1:
+        a, b, op = e.left, e.comparators[0], e.ops[0]
+        zero = lambda x: isinstance(x, ast.Constant) and x.value == 0
+        red = lambda x: isinstance(x, ast.Call) and call_name(x) in ("ptp", "max", "min", "amax", "amin", "std", "var", "norm", "sum", "mean")
+        if isinstance(op, ast.Eq) and ((red(a) and call_name(a) in ("ptp", "std", "var") and zero(b)) or
+                                       (red(b) and call_name(b) in ("ptp", "std", "var") and zero(a))) and skip_if_true:
+            return "nonzero", text, "rows that are uniform in theta (any constant, not only zero)"
+        if isinstance(op, ast.Eq) and red(a) and red(b) and {call_name(a), call_name(b)} <= {"max", "min", "amax", "amin"} and skip_if_true:
+            return "nonzero", text, "rows that are uniform in theta (any constant, not only zero)"
+        if isinstance(op, (ast.Lt, ast.LtE, ast.Gt, ast.GtE)) and (red(a) or red(b)):
+            return "nonzero", text, "rows selected by a threshold on their values"
+    return None, text
+
+
 def regimes(chk):
     """the source rows of parallel_gradient tile [0, nz) whatever block the caller owns; unwrapped target rows stay inside the
     array (shared with C05)"""
@@ -918,6 +1346,24 @@ def regimes(chk):
                "scatter not followed: " + (m["why"] or ("no accumulation into the result found" if not cs else
                                                         next(p for c in cs for p in c.problems))), file=U.ADV, func=q)
         return None
+    # every source row contributes, whatever the data: a guard on the accumulation skips rows
+    for c in cs:
+        for test, pol in c.ev.guards:
+            kind = classify_skip(test, pol)
+            if kind[0] == "zero":
+                continue
+            if kind[0] == "nonzero":
+                chk.ob("F7-regimes", c.ev.node, "every source row in [0, nz) contributes", False,
+                       f"the contributions of a source row are skipped when `{kind[1]}`, which holds for {kind[2]}: a source row k feeds the n "
+                       "different target rows k - s_j with the weights c_j, so dropping a non-zero row removes c_j * S_k(theta + ...) from each "
+                       "of them; these terms cancel inside one target row only if all rows of its stencil carry the same values. The result "
+                       "is no longer linear in the potential (e.g. a potential that depends on z only gives 0 instead of b_z d/dz)",
+                       file=U.ADV, func=q)
+            else:
+                chk.ob("F7-regimes", c.ev.node, "every source row in [0, nz) contributes", None,
+                       f"the accumulation is executed only when `{'' if pol else 'not '}({src(test).replace('P_', '')[:80]})`: which source rows are skipped "
+                       "is not decided", file=U.ADV, func=q)
+            return m
     # distinct row loops in program order
     frames = []
     for c in cs:
@@ -1018,6 +1464,31 @@ def regimes(chk):
     return m
 
 
+def _bz_indices(m):
+    """radius indices at which b_z is taken by the scaling statements of parallel_gradient"""
+    out = []
+    for ev, v, op in m["scales"]:
+        try:
+            out += [a.args[0] for a in to_sym(v).atoms(sp.Function) if a.func == BZ]
+        except Undecided:
+            pass
+    return out
+
+
+def _radius_index_kind(rad, m):
+    """'wrong' (constant or loop counter), 'consistent' (depends on the slice's index i and b_z is taken at the same expression), None"""
+    try:
+        e = to_sym(rad)
+    except Undecided:
+        return None
+    loops = {f.sym for c in m["contribs"] for f in (c.row, c.sten) if f is not None}
+    if e.is_number or any(str(x) in loops for x in e.free_symbols):
+        return "wrong"
+    if Symbol("P_i") in e.free_symbols and any(sp.simplify(b - e) == 0 for b in _bz_indices(m)):
+        return "consistent"
+    return None
+
+
 def gradient_formula(chk, m):
     from ..core import same_expr
     fn = m["fn"]
@@ -1031,7 +1502,7 @@ def gradient_formula(chk, m):
             k, j = Symbol(c.row.sym, integer=True), Symbol(c.sten.sym, integer=True)
             # the stencil loop runs over the shifts/coefficients themselves (or counts their entries)
             fl = m["flow"]
-            if c.sten.kind == "elems" and not all(fl.is_array_expr(o) for o in c.sten.over):
+            if c.sten.kind == "elems" and not all(fl.is_array_expr(o) or src(o).startswith("self._thetaVals[") for o in c.sten.over):
                 unknown.append(f"the stencil loop runs over `{', '.join(src(o) for o in c.sten.over)}`".replace("P_", ""))
             # source row: phi_r[row, :]
             if not (same_expr(c.src_row, f"P_phi_r[{c.row.sym}, :]") or same_expr(c.src_row, f"P_phi_r[{c.row.sym}]")):
@@ -1088,8 +1559,14 @@ def gradient_formula(chk, m):
                 while rest and full(rest[-1]):
                     rest = rest[:-1]
                 if not (isinstance(rad, ast.Name) and rad.id == "P_i"):
-                    (unknown if isinstance(rad, ast.Name) and rad.id.startswith("U_") else bad).append(
-                        f"the angle table is that of radius index `{src(rad).replace('P_', '')}`, not of the slice's index i")
+                    # another expression: wrong when it is a fixed index or a loop counter; a consistent re-basing of the radial index
+                    # (the same expression selects b_z) is engine C's subject (index spaces), not a violation here
+                    kind = _radius_index_kind(rad, m)
+                    txt = f"the angle table is that of radius index `{src(rad).replace('P_', '')}`, not of the slice's index i"
+                    if kind == "wrong":
+                        bad.append(txt + " (a fixed index / a loop counter that has taken the place of the radius index)")
+                    elif kind != "consistent":
+                        unknown.append(txt)
                 rank = tm.get("rank")
                 if rank is None:
                     unknown.append("layout of the angle table not established (see F7-theta-table)")
@@ -1181,6 +1658,21 @@ def gradient_formula(chk, m):
             if alg_equal(tot, w2):
                 continue
             bzs = [a for a in tot.atoms(sp.Function) if a.func == BZ and sp.simplify(a.args[0] - i_par) != 0]
+            # b_z taken at a re-based radial index that also selects the angle table: consistent, the index space is engine C's subject
+            tab_idx = []
+            for c_ in m["contribs"]:
+                p_ = c_.point
+                while isinstance(p_, ast.Subscript) and isinstance(p_.value, ast.Subscript):
+                    p_ = p_.value
+                if isinstance(p_, ast.Subscript) and src(p_.value) == "self._thetaVals":
+                    first = p_.slice.elts[0] if isinstance(p_.slice, ast.Tuple) else p_.slice
+                    try:
+                        tab_idx.append(to_sym(first))
+                    except Undecided:
+                        pass
+            if bzs and i_par in bzs[0].args[0].free_symbols and tab_idx and all(sp.simplify(t_ - bzs[0].args[0]) == 0 for t_ in tab_idx) \
+                    and alg_equal(tot.subs(bzs[0], BZ(i_par)), w2):
+                continue
             loopsyms = {f.sym: f for c_ in m["contribs"] for f in (c_.row, c_.sten)}
             if bzs and (str(bzs[0].args[0]) in loopsyms or bzs[0].args[0].is_number):
                 what = f"the loop counter of `{src(loopsyms[str(bzs[0].args[0])].node).splitlines()[0][:50]}` (which has taken the place of the " \
@@ -1212,7 +1704,10 @@ def run(chk):
     chk.explanation = (
         "Finite-difference moment system (e_1 right-hand side, consecutive shifts centred for even order, Vandermonde rows) by "
         "normal forms in the number of points; field-line angle table (column c = fieldline(theta, dz x shift_c), every row, "
-        "allocation axes) from a def-use/loop-frame model of _getThetaVals; scatter model of parallel_gradient: the source-row "
+        "allocation axes) from a def-use/loop-frame model of _getThetaVals, or, when the table is one whole-array expression, from an "
+        "axis-labelled element-wise model of the constructor (generic element = (theta + iota(r_i) dz shift_c / R0) mod 2 pi); scatter "
+        "model of parallel_gradient (explicit stencil loop, zipped table rows, or all stencil entries at once): every source row "
+        "contributes whatever the data (a skip is harmless only for identically zero rows), the source-row "
         "ranges tile [0, nz), each contribution pairs shift, coefficient and angle column of the same stencil entry and targets "
         "row (row - s_j) mod nz, unwrapped targets stay inside [-nz, nz); total scale b_z(r_i)/dz applied once; b_z and pitch "
         "agree with the flux-surface advection; the precomputed tables are not mutated by a call; index-space typing of the "
